@@ -88,12 +88,15 @@ def drive_fx(args):
     seed, i, tier = args
     rng = rng_for(seed, f'c03f-{i}')
     linear = i % 2 == 0
-    a = AG.gen_fx_recursive(rng, linear=linear, max_q=0.8)
+    dead = i % 3 == 1
+    a = AG.gen_fx_recursive(rng, linear=linear and not dead, max_q=0.8, dead=dead, scalar_start=dead or i % 3 == 2)
     n = AG.numel(AG.shape_of(a, a['start']))
-    cot = [rng.choice([1, 1, 2, 0]) for _ in range(n)]
+    cot = [rng.choice([1, 1, 2, 0]) for _ in range(n)] if n > 1 else [1]
     runs = []
-    for m in (METHODS if linear else METHODS[:2]):
+    for m in (METHODS if (linear and not dead) else METHODS[:2]):
         runs.append(one(a, 'real', m, torch.float64, cot, fx=True, tol=1e-8))
+        if n == 1:      # scalar start: the Log-semiring gradient is judged through the same enclosure
+            runs.append(one(a, 'log', m, torch.float64, cot, fx=True, tol=1e-8))
     return {'ag': {k: a[k] for k in ('nls', 'els', 'start', 'rules', 'wfx', 'cert')}, 'mode': 'fx', 'cot': cot, 'cotlog': cot, 'pad': 8, 'runs': runs}
 
 
